@@ -13,6 +13,9 @@ import (
 )
 
 // samVarGen: a SAM file (non-conflicting records) + an annotation of the same reference
+// genBadFrame: set by the C11 stream only (other streams build on valid set-ups)
+var genBadFrame bool
+
 func samVarGen(r *RNG, id string, maxIns int, window bool) *Case {
 	c := NewCase("SAMVAR", id)
 	sc := genSam(r, true, maxIns)
@@ -66,6 +69,16 @@ func samVarGen(r *RNG, id string, maxIns int, window bool) *Case {
 	for i := 0; i < r.Range(0, 4); i++ {
 		if g, ok := randGene(r, L, i, true); ok {
 			genes = append(genes, g)
+		}
+	}
+	if genBadFrame && len(genes) > 0 && r.Chance(1, 20) {
+		// an annotation that parses but whose first coding feature cannot be turned into a region: its coding length is not
+		// a multiple of three. Both commands must refuse it (a list of indels only is not an answer)
+		last := &genes[0].segs[len(genes[0].segs)-1]
+		if last[1]-last[0] >= 3 {
+			last[1]--
+			c.Tag("cds-length-not-a-multiple-of-three")
+			c.Set("badframe", "1")
 		}
 	}
 	if r.Bool() {
@@ -250,6 +263,8 @@ func runFastaRoute(c *Case, kind string) result {
 func init() {
 	execs["SAMVAR"] = execSamVar
 	gens["C11"] = func(r *RNG, id string) *Case {
+		genBadFrame = true
+		defer func() { genBadFrame = false }()
 		switch r.Intn(3) {
 		case 0:
 			return samVarGen(r, id, r.PickInt([]int{0, 2, 5}), r.Chance(1, 3))
@@ -258,10 +273,16 @@ func init() {
 			c := samVarGen(r, id, r.PickInt([]int{0, 2, 5}), r.Chance(1, 3))
 			genSamAtBufferBoundary = false
 			c.SetBool("reffromfile", true)
+			if c.Get("badframe") == "1" { // both commands refuse: "the same" includes "both refuse"
+				return relOf(c, "samvar-topa", "same")
+			}
 			return relOf(c, "samvar-topa", "eq")
 		default:
 			c := samVarGen(r, id, 0, r.Chance(1, 3))
 			c.SetBool("reffromfile", true)
+			if c.Get("badframe") == "1" {
+				return relOf(c, "samvar-toma", "same")
+			}
 			return relOf(c, "samvar-toma", "eq")
 		}
 	}
